@@ -160,7 +160,7 @@ class Continuum:
             path = Path(path)
 
         continuum = cls()
-        with open(path) as csv_file:
+        with open(path, newline='') as csv_file:
             reader = csv.reader(csv_file, delimiter=delimiter)
             for row in reader:
                 seg = Segment(float(row[2]), float(row[3]))
@@ -925,7 +925,7 @@ class Continuum:
     def to_csv(self, path: Union[str, Path], delimiter=","):
         if isinstance(path, str):
             path = Path(path)
-        with open(path, "w") as csv_file:
+        with open(path, "w", newline='') as csv_file:
             writer = csv.writer(csv_file, delimiter=delimiter)
             for annotator, unit in self:
                 writer.writerow([annotator, unit.annotation,
